@@ -20,6 +20,8 @@ def _resolve(spec: str) -> Any:
         obj = inspect.getattr_static(obj, part) if inspect.isclass(obj) else getattr(obj, part)
         if isinstance(obj, (staticmethod, classmethod)):
             obj = obj.__func__
+    if not hasattr(obj, "__code__") and callable(getattr(obj, "callback", None)):
+        obj = obj.callback  # click.Command
     while hasattr(obj, "__wrapped__"):
         obj = obj.__wrapped__
     return obj
